@@ -119,8 +119,8 @@ class Model:
             return 'r%d' % o[1]
         if k == 'p':
             return 'p%d:%d' % (o[1], self.sym[o[2]])
-        if k == 'q':
-            return 'q%d' % o[1]
+        if k in ('q', 'e', 's'):
+            return '%s%d' % (k, o[1])
         if k == 'f':
             return 'f%d' % int(bool(o[1]))
         raise ValueError(o)
@@ -133,12 +133,13 @@ class Model:
             res = []
             if c['ops']:
                 for part in l.split(' | '):
-                    e, o, u, r = part.split(';')
+                    e, o, u, r, orph = part.split(';')
                     pr = e.endswith('P') and e != 'P'
                     if pr:
                         e = e[:-1]
                     res.append({'st': e, 'pr': pr, 'ord': [int(x) for x in o.split(',') if x], 'uno': [int(x) for x in u.split(',') if x],
-                                'req': None if r == '-' else [self.name_of[int(x)] for x in r[1:-1].split(',') if x]})
+                                'req': None if r == '-' else [self.name_of[int(x)] for x in r[1:-1].split(',') if x],
+                                'par': [int(x) for x in orph.split(',') if x]})
             out.append(res)
         return out
 
